@@ -154,7 +154,7 @@ func Payload(r *Rng, fam string, n int) []byte {
 			if (i % 65536) < share {
 				b[i] = dom
 			} else {
-				b[i] = byte(1 + r.Intn(255))
+				b[i] = dom + byte(1+r.Intn(255)) // never the dominant value: its count is exact
 			}
 		}
 		for blk := 0; blk < n; blk += 65536 {
